@@ -169,6 +169,11 @@ def scen_children():
         p.join(0.2)
         if time.monotonic() - t0 > 2 or p.exitcode is not None:
             out.append('join(0.2) on a running child took %.1fs, exitcode %r' % (time.monotonic() - t0, p.exitcode))
+        try:
+            p.join(0.05)          # a second timed join on the same, still running child
+            p.join(0)
+        except Exception as e:      # noqa
+            out.append('second timed join() on a running child raised %r (the first, expired one left the object unusable)' % (e,))
     finally:
         os.kill(p.pid, signal.SIGTERM)
         p.join(10)
